@@ -7,6 +7,7 @@ import (
 	"verif/harness/checks/c02"
 	"verif/harness/checks/c03"
 	"verif/harness/checks/c05"
+	"verif/harness/checks/c18"
 	"verif/harness/vf"
 )
 
@@ -17,3 +18,5 @@ var checks = map[string]func(*vf.Check){
 	"C03": c03.Run,
 	"C05": c05.Run,
 }
+
+func transcript(path string) error { return c18.Transcript(path) }
